@@ -6,6 +6,7 @@ correspondence check compares the counts exactly. Heap allocations are measured 
 growth families and fitted (validation of "calls bound the work", not a proof).
 -/
 import ShapeVerif.Model.Cost
+import ShapeVerif.Lemmas.SubsetTwin
 import ShapeVerif.Lemmas.Sorted
 namespace ShapeVerif
 open Shape
@@ -434,5 +435,9 @@ theorem subset_cost_aux (n : Nat) : ∀ b : Shape, sizeOf b ≤ n → CostFor b 
 /-- **subset_cost**: a subset query enters `is_subset` at most `size a * size b` times -/
 theorem subset_cost (a b : Shape) : (subsetT a b).2 ≤ a.size * b.size :=
   subset_cost_aux (sizeOf b) b (Nat.le_refl _) a
+
+/-- the counting twin answers exactly what `isSubset` answers: `subset_cost` is a bound on the evaluation
+of `isSubset` itself -/
+theorem subsetT_is_isSubset (a b : Shape) : (subsetT a b).1 = isSubset a b := subsetT_fst a b
 
 end ShapeVerif
